@@ -3,7 +3,7 @@
    every decomposition layout; congruences are coefficient-wise modulo 2^32 (eqNm). *)
 From Coq Require Import ZArith List Lia.
 From TV Require Import Base.Int32 Ring.NegaRing Model.Lwe Model.Poly Model.Tlwe Model.Decomp Model.Tgsw Model.Bootstrap
-  Proofs.Tlwe Proofs.Decomp Proofs.Tgsw Proofs.Gadget Proofs.BlindRotate Proofs.BootKey Proofs.ExtprodPoly.
+  Proofs.Tlwe Proofs.Decomp Proofs.Tgsw Proofs.Gadget Proofs.BlindRotate Proofs.BootKey Proofs.ExtprodPoly Model.Encrypt Proofs.KeyGen.
 Import ListNotations.
 Local Open Scope Z_scope.
 
@@ -66,6 +66,16 @@ Theorem C09_extprod_polynomial_error_bound : forall N, (0 < N)%nat -> forall key
   (forall j, (j < N)%nat -> Z.abs (Ep N key k l B mu e t j) <= beta_poly N k l B mu eta).
 Proof. exact extprod_poly_error_bound. Qed.
 Print Assumptions C09_extprod_polynomial_error_bound.
+
+(* C07 -> C09: what tGswSymEncrypt builds from its draw stream (every converted Gaussian draw at most eta) multiplies the phase of
+   every accumulator by the message polynomial, up to beta_poly *)
+Theorem C09_encrypted_polynomial_acts_like : forall N, (0 < N)%nat -> forall key k, wf_tkey N k key -> Forall (Forall (fun x => x = 0 \/ x = 1)) key ->
+  forall l B, valid_layout l B -> forall mu ds C r eta, length mu = N -> 0 <= eta -> bounded eta ds ->
+  tgsw_sym_encrypt l B key N mu ds = Some (C, r) ->
+  forall t, wf_tsample N k t ->
+  exists E, eqNm N (PHv N key (extprod l B C t)) (vadd (act N mu (PHv N key t)) E) /\ (forall j, (j < N)%nat -> Z.abs (E j) <= beta_poly N k l B mu eta).
+Proof. exact encrypt_poly_acts_like. Qed.
+Print Assumptions C09_encrypted_polynomial_acts_like.
 
 (* one CMux step *)
 Theorem C09_cmux_phase : forall N, (0 < N)%nat -> forall key k, wf_tkey N k key -> forall l B g s E beta a acc,
